@@ -411,6 +411,29 @@ def shard_fd(shard, nshards, tier, seed, scratch):
             seen.add('sqlite-fd-leak')
             failures.append({'leg': 'fd', 'clause': 'sqlite-fd-leak', 'detail': {'scenario': name, 'outcome': err, 'leaked': {k: v for k, v in after.items() if before.get(k) != v}}, 'case': {'kind': 'fd', 'scenario': name}})
     con.close()
+    # a writer that owns its stream (close_stream_on_finish=True) over a real pipe whose reader is gone, buffered and unbuffered, with an
+    # output far larger than every buffer: the query returns quietly
+    for query in ('select a1, a2', 'select * order by int(a2) desc', "update a1 = 'z'", 'select a1, count(*) group by a1'):
+        for bufsize in (65536, 8192, 0):
+            rfd, wfd = os.pipe()
+            os.close(rfd)
+            stream = os.fdopen(wfd, 'wb', bufsize)
+            table = [['row%d' % (i % 5000), str(i), 'v,%d' % i] for i in range(30000)]
+            err = None
+            try:
+                wr = rbql_csv.CSVWriter(stream, True, 'utf-8', ',', 'quoted')
+                engine.rbql.query(query, rbql_engine.TableIterator(table), wr, [])
+            except BaseException as e:
+                err = repr(e)
+            try:
+                stream.close()
+            except BaseException:
+                pass
+            stats.evaluations += 1
+            stats.nontrivial_counted += 1
+            if err is not None and 'owned-pipe' not in seen:
+                seen.add('owned-pipe')
+                failures.append({'leg': 'fd', 'clause': 'exception-escapes-owned-broken-pipe', 'detail': {'query': query, 'buffer_size': bufsize, 'error': err}, 'case': {'kind': 'fd', 'scenario': 'owned-pipe'}})
     # the scenarios must really exercise all four kinds of path
     kinds = set(outcomes.values())
     for need in (None, 'RbqlParsingError', 'RbqlRuntimeError', 'RbqlIOHandlingError'):
